@@ -35,8 +35,67 @@ def handleSoak (case : Nat) (j : Json) : IO Unit := do
   emit case (bad == 0) (bad == 0) s!"soak.{jstr (jget j "engine")}" (if bad == 0 then "" else "response-not-its-own-backend-answer-after-aborts")
     (if bad == 0 then "" else s!"{jstr (jget j "engine")}: after {jnat (jget impl "aborted")} clients had gone away mid-stream, {bad} of {bad + jnat (jget impl "complete_whole")} clients that stayed to the end did not hold their own answer's bytes; first: {jstr (jget impl "first")}")
 
+/-- The body a scripted backend of a history sends: `unit` repeated and cut to `len` bytes. Only the first `need` bytes
+    are built (a client that left holds a few KB of an answer of megabytes): `isPrefixOf` and `==` against something of
+    at most `need - 1` bytes cannot tell the difference, and the callers pass `need > ` the client's byte count. -/
+def cycleBody (unit : List UInt8) (len need : Nat) : List UInt8 :=
+  let n := min len need
+  if unit.isEmpty then [] else ((List.replicate (n / unit.length + 1) unit).flatten).take n
+
+/-- kind "history": one step of a long-lived stack's history (harness c02/history.go). The step is a request scenario of
+    its own — what each backend was made to say to THIS request, which backends THIS request reached in which order, what
+    THIS client holds (a client that left: what it held when it left) — and is judged by the same predicate as a scenario
+    on a fresh stack: `singleAttempt`. Whatever earlier requests left behind in the instance, the response is the work of
+    the last attempt dispatched for it. `wholeWhenCompleted` adds, for a client that stayed and an answering backend that
+    was not made to break off, that the body is all there. No model is consulted (agree = true): which endpoints a
+    history leaves routable is the business of other properties; the order is taken as observed. -/
+def handleHistory (case : Nat) (j : Json) : IO Unit := do
+  if jstr (jget j "start_err") != "" then
+    emit case false true "start-error" "" (jstr (jget j "start_err")); return
+  let set := jget j "settings"
+  let st := jget j "step"
+  let names := jstrList (jget j "backends")
+  let idx (n : String) : Nat := (names.zipIdx.find? (·.1 == n)).map (·.2) |>.getD 99
+  let cl := jget st "got"
+  let cStatus := jnat (jget cl "status")
+  let cBody := unhex (jstr (jget cl "body_hex"))
+  let cErr := jstr (jget cl "err")
+  let cHdrs := sortPairs (parsePairs (jget cl "headers"))
+  let stayed := jstr (jget st "role") == "stay"
+  let plans := jarr (jget st "plan")
+  let need := if stayed then cBody.length + 100000000 else cBody.length + 1
+  let saidOf (p : Json) : Said :=
+    { name := idx (jstr (jget p "backend")), status := jnat (jget p "status"), headers := sortPairs (parsePairs (jget p "headers")),
+      body := cycleBody (unhex (jstr (jget p "unit_hex"))) (jnat (jget p "len")) need }
+  let said := plans.map saidOf
+  let order := (jstrList (jget st "order")).map idx
+  let ollaErr := isOllaError cStatus (jstr (jget cl "content_type")) cHdrs cBody (said.map (·.body))
+  let nothing := cStatus == 0 || cErr == "eof-before-status" || cErr == "bad-status-line" || cErr == "dial" || cErr == "write"
+  let got : Option Got := if ollaErr || nothing then none else some { status := cStatus, headers := cHdrs, body := cBody }
+  -- the attempt whose answer the client holds ran to its end: the backend last reached was made to answer, not to break off
+  let lastKind := match order.getLast? with
+    | some b => (plans.find? (fun p => idx (jstr (jget p "backend")) == b)).map (fun p => jstr (jget p "kind")) |>.getD ""
+    | none => ""
+  let completed := lastKind == "ok" || lastKind == "pause"
+  -- a client whose own patience ran out (harness deadline, loaded machine) did not stay to the end
+  let stayedToEnd := stayed && cErr != "timeout"
+  let single := singleAttempt said order got
+  let whole := wholeWhenCompleted said order completed stayedToEnd got
+  let spec := single && whole
+  let branch := s!"history.{jstr (jget set "engine")}." ++
+    (if got.isNone then (if order.isEmpty then "not-dispatched" else "nothing-delivered")
+     else if !stayed then (if order.length > 1 then "left-after-failover" else "left")
+     else if order.length > 1 then "served-after-failover" else if completed then "served-first" else "broken-off")
+  let sig := if spec then "" else
+    if !single then (if order.length > 1 then "history-response-mixes-attempts-or-redispatch-after-delivery" else "history-response-not-from-its-one-attempt")
+    else "history-response-not-whole-though-attempt-completed"
+  emit case true spec branch sig
+    (if spec then "" else s!"history {jstr (jget set "id")} ({jstr (jget set "engine")}, profile {jstr (jget set "profile")}, {jstr (jget set "balancer")}, stream buffer {jnat (jget set "stream_buffer_size")}, GOMAXPROCS {jnat (jget set "gomaxprocs")}), step {jnat (jget st "idx")} of {jnat (jget j "steps_in_history")} (round {jnat (jget st "round")}): {jstr (jget st "desc")}: reached {jstrList (jget st "order")}, client status {cStatus} err '{cErr}' holds {cBody.length} bytes beginning {reprStr (String.fromUTF8! (ByteArray.mk (cBody.take 48).toArray))}; the steps before it on this instance are in the case (before)")
+
 def handle (j : Json) : IO Unit := do
   let case := jnat (jget j "case")
+  if jstr (jget j "kind") == "history" then
+    handleHistory case j; return
   if jstr (jget j "kind") == "xroute" then
     handleXroute case j; return
   if jstr (jget j "kind") == "soak" then
